@@ -202,9 +202,8 @@ Definition propagate (r : roadm) (deg from : Z) (l : list chan) : res pout :=
   end.
 
 (* ---------- design step: set_roadm_per_degree_targets (network.py:1296-1315) ---------- *)
-(* the code tests the node-level values by truthiness:  `if roadm.params.target_pch_out_db:`  is false for 0 dBm (F12).
-   PSD / PSW values are > 0 whenever they have a dB value, hence always truthy here. *)
-Definition truthy_pow (o : option Q) : bool := match o with Some t => negb (Qeq_bool t 0) | None => false end.
+(* the code tests the node-level values with `is not None` (F12 fixed: a 0 dBm target is a target). *)
+Definition truthy_pow (o : option Q) : bool := match o with Some _ => true | None => false end.
 Definition truthy_lin (o : option Q) : bool := match o with Some _ => true | None => false end.
 Definition getq (o : option Q) : Q := match o with Some q => q | None => 0 end.
 
